@@ -666,8 +666,50 @@ func c11Histories(c *Ctx) {
 	}
 }
 
+// c11Integers: the NUMBER of an interval or limit clause in every decimal spelling (plain, zero padded as a script's
+// %02d / %04d renders it, long), in three clause positions: it denotes its decimal value.
+func c11Integers(c *Ctx) {
+	if c.Shard != 0 {
+		return
+	}
+	for _, sp := range []struct {
+		Text string
+		N    int
+	}{{"0", 0}, {"7", 7}, {"10", 10}, {"00", 0}, {"007", 7}, {"08", 8}, {"09", 9}, {"010", 10}, {"0010", 10}, {"023", 23}, {"060", 60}, {"0100", 100}, {"0755", 755}, {"123456", 123456}} {
+		for _, clause := range []string{"limit", "interval", "LIMIT", "Interval"} {
+			for _, tmpl := range []string{"select f %s %s", "select count(f) %s %s group by f", "%s %s select f from T"} {
+				q := fmt.Sprintf(tmpl, clause, sp.Text)
+				if strings.HasPrefix(tmpl, "%s") {
+					q = "select f from T " + clause + " " + sp.Text + " group by f"
+				}
+				c.Count("int|" + q)
+				var p *mapr.Query
+				var err error
+				var pv interface{}
+				func() {
+					defer func() { pv = recover() }()
+					p, err = mapr.NewQuery(q)
+				}()
+				in := map[string]string{"query": q}
+				switch {
+				case pv != nil:
+					c.Violation("parser-panic", fmt.Sprintf("query %q: panic %v", q, pv), in)
+				case err != nil:
+					c.Violation("valid-query-rejected", fmt.Sprintf("valid query %q (the number %s is the decimal number %d) rejected: %v", q, sp.Text, sp.N, err), in)
+				case strings.EqualFold(clause, "limit") && p.Limit != sp.N:
+					c.Violation("misparsed", fmt.Sprintf("query %q: limit %d, want %d (the decimal number %s)", q, p.Limit, sp.N, sp.Text), in)
+				case strings.EqualFold(clause, "interval") && p.Interval != time.Duration(sp.N)*time.Second && !(sp.N == 0 && p.Interval > 0):
+					// (interval 0 is replaced by the default interval)
+					c.Violation("misparsed", fmt.Sprintf("query %q: interval %v, want %d s (the decimal number %s)", q, p.Interval, sp.N, sp.Text), in)
+				}
+			}
+		}
+	}
+}
+
 func c11Run(c *Ctx) {
 	full := c.Thorough()
+	c11Integers(c)
 	canon := aSurface{By: true}
 	conds := c11Conds()
 	// A: clause product, canonical surface
@@ -780,7 +822,7 @@ func init() {
 			"group, order/rorder, set incl. nested functions, interval, limit, outfile [append], logformat); each is rendered to text and parsed by mapr.NewQuery; " +
 			"product A = all clause combinations in canonical surface, B = every single where condition and pairs under 9 surfaces, C = a reduced abstract set under every " +
 			"clause order (canonical, reversed, rotations) x keyword case x separator x optional 'by' x 'and' style x white-space style (blank, newline, tab, double blank, CRLF, indented newline); the parsed fields and a one-line evaluation of where/set " +
-			"must equal the denotation; 39 malformed classes x 3 spellings must be rejected without panic; plus histories: 8 groups of up to 4 queries that differ only inside a quoted string (white space, letter case, comma) or in the letter case of a back-quoted name parsed in one process in every order, each compared with its own denotation; non-trivial = query has where/set or a non-canonical surface",
+			"must equal the denotation; the NUMBER of interval and limit in 14 decimal spellings (zero padded, long) x 4 keyword spellings x 3 clause positions denotes its decimal value; 39 malformed classes x 3 spellings must be rejected without panic; plus histories: 8 groups of up to 4 queries that differ only inside a quoted string (white space, letter case, comma) or in the letter case of a back-quoted name parsed in one process in every order, each compared with its own denotation; non-trivial = query has where/set or a non-canonical surface",
 		Assumptions: []string{
 			"aggregation and function names are written in lower case and string operators get field/quoted operands, float operators get field/number operands (other spellings are ambiguous in the documented grammar and excluded so that the check never demands more than the statement)",
 			"empty quoted strings are excluded (ambiguous)",
